@@ -30,14 +30,28 @@ RULE = ("every input of: (bytes) all byte strings of length <= 2 over all 256 va
         "NSIZE (12 line kinds), nesting depth of 10 constructs around YYINITDEPTH/YYMAXDEPTH, 84 numeric/character literals in 3 contexts, total code size "
         "around 32768 and 65536 bytes in 5 placements, 253..259 overridden inherited functions, 65535 function literals beside efun-named locals, string-switch labels of very "
         "different lengths, 4 ways of leaving the compile early x 10 open constructs, and 5 names (3 efuns, a simul_efun, a plain name) x every non-empty subset of the roles "
-        "{inherited function, prototype, global, class, function, argument, local} in one program; (hist) all ordered tuples over 25 state-leaving "
-        "candidates loaded with load_object() as genuine histories, each step compared with its fresh-driver outcome. "
+        "{inherited function, prototype, global, class, function, argument, local} in one program; (outer function: k variables + 0..2 variables of a block that is closed again) x "
+        "function-literal nesting 0..3 x (variables of each literal, 0..1 in a closed block), as locals and as arguments, every case starting from the locals tables of a freshly "
+        "booted driver, so that the enclosing functions' totals cross each size the tables grow by (full grid with MaxLocalVariables 6, values around 0, N/2, N at 25); "
+        "file termination: 3 bodies x 52 ways a file can end (newline / none / blanks; // and /* comments closed, open, after code; every directive, #define continuation, "
+        "conditionals open and closed; string, character constant, text and array block open or just terminated; macro call open; backslash; CR; and code after an escaped newline) "
+        "plus 11 endings of an included file x {text follows the #include, #include is the last line}, read from a file and handed over as pre_text, each after 6 previously "
+        "compiled files (nothing, short, long valid, long ending in a // comment, long with a syntax error, long ending inside a text block) and compared with the outcome after nothing; "
+        "(hist) all ordered tuples over 25 state-leaving "
+        "candidates loaded with load_object() as genuine histories, each step compared with its fresh-driver outcome; (histpol) the same histories over 28 candidates "
+        "under master policies: each apply the driver makes during a compile (log_error, valid_override, valid_save_binary, error_handler) plain / calling a loaded object / "
+        "calling an object that must be compiled first / raising an error - all 256 combinations for single loads, one apply at a time for ordered pairs and triples (quick: pairs under the 6 policies "
+        "{log_error, valid_override, valid_save_binary} x {loads an object, raises an error}; thorough: pairs under all 12, triples under those 6). "
         "Oracle after every input: terminates; program or >= 1 compile error; no sanitizer report; no exit; residual compiler state == s0; probe dump == fresh dump")
 
 ASSUMPTIONS = [
     "the residual state covers the statics of compiler.c, lex.c/preprocess.c, identifier.c, scratchpad.c, icode.c, parse_trees.c, generate.c, grammar's "
     "context and simulate's inherit_file; compile_file()'s function-local 'guard' and the malloc arena are not readable and are covered only by the probe differential",
     "capacities that only grow (locals_size, type_of_locals_size) are compared as >= fresh value; sem_value counters are compared exactly",
+    "the locals tables only ever grow, so in a running driver their size depends on everything compiled before: the sweep parts start from the size init_locals() "
+    "gives them at boot (harness calls deinit_locals()+init_locals() after its own baseline compile), and the locals / function-literal families reset them before every case",
+    "'fresh driver' for the file-termination and history comparisons is the state every child starts from: booted, simul_efun and master compiled, the probe compiled twice",
+    "histpol installs mudlib/base/c02/master_policy.c (inherits the shared base master) as the master of its scratch mudlib; the policy is switched off again before the probe is compiled",
     "an input that leaves a detected leftover ends its child (vx_enum_restart) so that later inputs of the batch are judged from the fresh state",
     "hang = no return within the per-input timeout and again within 20x when re-run alone",
     "token = whitespace-separated lexeme, string/char literal, text block, newline, or a whole # directive line (corpus edits)",
@@ -51,13 +65,15 @@ def _left(ck, budget):
 def run(ck):
     exe = build(ck)["h_c02"]
     quick = ck.tier == "quick"
-    budget = 200 if quick else 2250          # seconds for the enumeration parts (build and replays come on top)
+    budget = 175 if quick else 2250          # seconds for the enumeration parts (build and replays come on top)
     J = 16
     if quick:
         # most valuable first; every part has a deadline, so the tier ends in time and says what was completed
         ck.enum(exe, ["--part=sweep", "--maxlocals=6"], "sweep-locals6", batch=150, deadline_s=_left(ck, budget), timeout_ms=20000, jobs=J)
         ck.enum(exe, ["--part=sweep"], "sweep", batch=100, deadline_s=_left(ck, budget), timeout_ms=20000, jobs=J)
         ck.enum(exe, ["--part=hist", "--hist-len=2"], "hist2", batch=25, deadline_s=_left(ck, budget), timeout_ms=20000, jobs=J)
+        ck.enum(exe, ["--part=histpol", "--hist-len=1"], "histpol1", batch=28, deadline_s=_left(ck, budget), timeout_ms=20000, jobs=J)
+        ck.enum(exe, ["--part=histpol", "--hist-len=2", "--pol-small=1"], "histpol2", batch=28, deadline_s=_left(ck, budget), timeout_ms=20000, jobs=J)
         ck.enum(exe, ["--part=edit", "--edit-subst-progs=12"], "edit-d40-s12", batch=300, deadline_s=_left(ck, budget), timeout_ms=10000, jobs=J)
         ck.enum(exe, ["--part=tok", "--tok-len=3"], "tok3", batch=400, deadline_s=_left(ck, budget), timeout_ms=10000, jobs=J)
         ck.enum(exe, ["--part=bytes2", "--to=65793"], "bytes2-fd", batch=400, deadline_s=_left(ck, budget), timeout_ms=10000, jobs=J)
@@ -69,6 +85,9 @@ def run(ck):
         ck.enum(exe, ["--part=sweep", "--maxlocals=6"], "sweep-locals6", batch=150, deadline_s=_left(ck, budget), timeout_ms=20000, jobs=J)
         ck.enum(exe, ["--part=sweep", "--thorough=1"], "sweep", batch=60, deadline_s=_left(ck, budget), timeout_ms=60000, jobs=J)
         ck.enum(exe, ["--part=hist", "--hist-len=3"], "hist3", batch=25, deadline_s=_left(ck, budget), timeout_ms=20000, jobs=J)
+        ck.enum(exe, ["--part=histpol", "--hist-len=1"], "histpol1", batch=28, deadline_s=_left(ck, budget), timeout_ms=20000, jobs=J)
+        ck.enum(exe, ["--part=histpol", "--hist-len=2"], "histpol2", batch=28, deadline_s=_left(ck, budget), timeout_ms=20000, jobs=J)
+        ck.enum(exe, ["--part=histpol", "--hist-len=3", "--pol-small=1"], "histpol3", batch=28, deadline_s=_left(ck, budget), timeout_ms=20000, jobs=J)
         ck.enum(exe, ["--part=edit"], "edit", batch=300, deadline_s=_left(ck, budget), timeout_ms=10000, jobs=J)
         ck.enum(exe, ["--part=tok", "--tok-len=4"], "tok4", batch=500, deadline_s=_left(ck, budget), timeout_ms=10000, jobs=J)
         ck.enum(exe, ["--part=class", "--class-len=3"], "class3", batch=400, deadline_s=_left(ck, budget), timeout_ms=10000, jobs=J)
